@@ -244,6 +244,7 @@ func pkgFuncs(m *Module, p *packages.Package) map[string]*FuncInfo {
 func lookupFunc(m *Module, p *packages.Package, name string) *FuncInfo {
 	fs := pkgFuncs(m, p)
 	if f, ok := fs[name]; ok {
+		recordFunc(p, name, f)
 		return f
 	}
 	alt := name
@@ -252,20 +253,26 @@ func lookupFunc(m *Module, p *packages.Package, name string) *FuncInfo {
 	} else if i := strings.Index(name, "."); i > 0 {
 		alt = "(*" + name[:i] + ")" + name[i:]
 	}
-	return fs[alt]
+	if f := fs[alt]; f != nil {
+		recordFunc(p, name, f)
+		return f
+	}
+	// consistently renamed? (see anchors.go)
+	return renamedFunc(m, p, name)
 }
 
 // lookupType returns the named type declared in the package, or nil.
 func lookupType(p *packages.Package, name string) *types.Named {
 	o := p.Types.Scope().Lookup(name)
 	if o == nil {
-		return nil
+		return renamedType(p, name)
 	}
 	tn, ok := o.(*types.TypeName)
 	if !ok {
 		return nil
 	}
 	n, _ := tn.Type().(*types.Named)
+	recordType(p, name, n)
 	return n
 }
 
@@ -281,8 +288,10 @@ func lookupField(p *packages.Package, typ, name string) *types.Var {
 	}
 	for i := 0; i < st.NumFields(); i++ {
 		if st.Field(i).Name() == name {
+			recordField(p, typ, name, st.Field(i))
 			return st.Field(i)
 		}
 	}
-	return nil
+	// consistently renamed? (see anchors.go)
+	return renamedField(p, typ, name, st)
 }
